@@ -46,6 +46,10 @@ fn fmt_time(x: f64, rng: &mut Rng) -> String {
     if x == 1e-17 {
         return rng.pick(&["1e-17", "0.00000000000000001"]).to_string();
     }
+    if x == 0.0 && rng.chance(1, 4) {
+        // the sign of zero is a spelling matter: `-0` is the same point in time as `0`
+        return rng.pick(&["-0", "-0.0", "0e0"]).to_string();
+    }
     if x == x.trunc() {
         match rng.below(4) {
             0 => format!("{}.0", x as i64),
